@@ -11,7 +11,7 @@ import numpy as np
 from .. import arrays as A
 from .. import gen_geom as gg
 from .. import oracle_geom as og
-from ..ctx import exc_in_repo, short_exc
+from ..ctx import exc_in_repo, scribble, short_exc
 
 RULE = ("cases = (kind, coordinate subtype, element, box) with the element taken from hostile "
         "generators (rectilinear cell-set polygons with holes / nested / touching parts, star "
@@ -188,7 +188,22 @@ def check_case(ctx, case, full=True):
 
     # ---- implementation: whole-array form, one call per box ---------------------------
     impl = np.zeros((n, m), dtype=bool)
+
+    def caller_writes_into_results(box):
+        # what a caller may do with arrays it was handed: write into them.  Every answer below is
+        # computed after that, so a result that aliases state of the array shows up against the oracle
+        got = [lambda: arr.bounds, lambda: arr.total_bounds, lambda: arr.intersects_bounds(box),
+               lambda: arr.intersects_bounds(box, np.arange(n, dtype=np.uint32))]
+        if kind == "point":
+            got += [lambda: arr.x, lambda: arr.y]
+        for g_ in got:
+            ok_, v_, _tb = ctx.guarded(g_)
+            if ok_:
+                ctx.count("caller_written_results", scribble(v_))
+
     for j in range(m):
+        if n and j in (0, m // 2):
+            caller_writes_into_results(tuple(boxes_f[j]))
         ok, r, tb = ctx.guarded(arr.intersects_bounds, tuple(boxes_f[j]))
         if not ok:
             rec_raise(f"array form box {boxes_f[j].tolist()}", r, tb, "array")
